@@ -144,21 +144,28 @@ func checkC05(r *Result) {
 					continue
 				}
 				var forms []string
-				var collect func(v ssa.Value, d int)
-				collect = func(v ssa.Value, d int) {
+				var collect func(v ssa.Value, d int, down bool)
+				collect = func(v ssa.Value, d int, down bool) {
 					if ph, ok := v.(*ssa.Phi); ok && d < 4 {
 						for _, e := range ph.Edges {
-							collect(e, d+1)
+							collect(e, d+1, down)
 						}
 						return
 					}
 					if c, ok := v.(*ssa.Call); ok && d < 4 && CalleeName(c.Common()) == "(cosmossdk.io/math.LegacyDec).TruncateInt" {
-						collect(c.Call.Args[0], d+1)
+						// the fraction is rounded down as a whole: the entries' amounts add up to at most the amount moved
+						collect(c.Call.Args[0], d+1, true)
 						return
 					}
-					forms = append(forms, shareForm(linOf(v)))
+					f := shareForm(linOf(v))
+					if f == "amount*moved/total" && !down {
+						// equal to the entry's fraction as a rational, but not the whole fraction rounded down (e.g. amount minus
+						// a truncated deduction rounds the share up): the entries can add up to more than was moved into the pool
+						f = "other: the fraction is not rounded down as a whole: " + clip(NewTermer().Of(v).String(), 120)
+					}
+					forms = append(forms, f)
 				}
-				collect(Arg(cs.Instr, 2), 0)
+				collect(Arg(cs.Instr, 2), 0, false)
 				sort.Strings(forms)
 				wantForms := "[amount*moved/total]"
 				if p.repFn == "(x/reporter/keeper.Keeper).ReturnSlashedTokens" {
